@@ -160,6 +160,9 @@ def mono_div(m1, m2):
 _ONE = Poly({(): Fraction(1)})
 
 
+APPROX_SQRT = [False]     # witness evaluation only: see Sym.evaluate
+
+
 class Sym:
     """num/den in light normal form (constant denominators folded, den leading coeff 1)."""
     __slots__ = ('num', 'den', '_fp')
@@ -376,6 +379,12 @@ class Sym:
                 r = _m.isqrt(vals[0].numerator * vals[0].denominator)
                 if r * r == vals[0].numerator * vals[0].denominator:
                     return Fraction(r, vals[0].denominator)
+                if APPROX_SQRT[0]:
+                    # irrational root: a rational within 10^-40 of it (enough to order it
+                    # against the integers and rationals of a witness; never used for proofs)
+                    k = 10 ** 40
+                    return Fraction(_m.isqrt(vals[0].numerator * vals[0].denominator * k * k),
+                                    vals[0].denominator * k)
             raise KeyError(f)
 
         def ev_poly(p):
